@@ -75,6 +75,19 @@ def ref_density(kind, dim, zseed):
             if dim > 1:
                 g[0] += -y[1] / 1.2 * 0.6 * x[0]
             return g
+    elif kind == "boxed":
+        # bounded support: a smooth density inside the box |x_i - mu_i| < 2.2, zero outside (log-density -inf)
+        def logp(x):
+            d = np.asarray(x, float).reshape(-1) - mu
+            if np.any(np.abs(d) >= 2.2):
+                return -np.inf
+            return float(-0.5 * d @ d - 0.05 * np.sum(d ** 4))
+
+        def grad(x):
+            d = np.asarray(x, float).reshape(-1) - mu
+            if np.any(np.abs(d) >= 2.2):
+                return np.full(d.shape, np.nan)
+            return -d - 0.2 * d ** 3
     else:
         raise ValueError(kind)
     return logp, grad
@@ -244,7 +257,9 @@ def gen_exp_scenario(r, kind=None, dim_max=5):
     t, k = sc["target"], sc["knobs"]
     ip = [round(r.uniform(-1, 1), 3) for _ in range(dim)]
     if kind in ("MH", "CWMH", "ULA", "MALA", "NUTS"):
-        t["kind"] = r.choice(DENSITY_KINDS + ["post"])
+        t["kind"] = r.choice(DENSITY_KINDS + ["post"] + (["boxed", "boxed"] if kind in ("MH", "CWMH", "MALA") else []))
+        if t["kind"] == "boxed" and kind in ("MH", "CWMH") and r.random() < 0.4:
+            ip = [round(v * 6, 3) for v in ip]            # possibly a start value of zero density (outside the support)
         if r.random() < 0.8:
             k["initial_point"] = ip
     if kind in ("MH", "MALA", "NUTS", "ULA", "LinearRTO") and "initial_point" in k and r.random() < 0.12:
